@@ -139,6 +139,87 @@ class Real(PackedOps, RandOps):
             return res
         return res, line
 
+    # ---- calls that must be refused (malformed stream; C04: layout holds after calls that raise) ----
+    BAD_KINDS = ['wide_scalar', 'int_float', 'flt_int', 'not_ndarray', 'ranges_array', 'ranges_ring',
+                 'getitem_str', 'getitem_flt', 'getitem_listflt', 'getitem_type',
+                 'setitem_flt', 'setitem_listflt', 'setitem_type',
+                 'sop_bit_on_float', 'sop_wide_const', 'sop_list_nonwide', 'sop_list_float', 'sop_wide_add',
+                 'sop_array', 'sop_int_fltconst',
+                 'deg_finer', 'deg_wmean_noweights', 'deg_weights_notmap', 'deg_weights_int', 'deg_wide_mean',
+                 'chkpos_nonint']
+
+    def op_bad(self, pos, kv):
+        """a malformed call of kind k= on map pos[0]; 'err' when the library refuses it, 'ok' when it does not"""
+        m = self.m(pos[0])
+        k = kv['k']
+        pix = np.array([int(t) for t in split_list(kv.get('pix', '0'))], dtype=np.int64)
+        one = self.scalar_for(m, kv['val']) if 'val' in kv else None
+        npix = 12 * m.nside_sparse ** 2
+        rng2 = np.array([[0, 2], [4, 6]], dtype=np.int64)
+        try:
+            if k == 'wide_scalar':
+                m.update_values_pix(pix, 5)
+            elif k == 'int_float':
+                m.update_values_pix(pix, 1.5)
+            elif k == 'flt_int':
+                m.update_values_pix(pix, 3)
+            elif k == 'not_ndarray':
+                m.update_values_pix(pix, [1] * len(pix))
+            elif k == 'ranges_array':
+                m.update_values_pix(rng2, np.zeros(2, dtype=m.dtype))
+            elif k == 'ranges_ring':
+                m.update_values_pix(rng2, one, nest=False)
+            elif k == 'getitem_str':
+                m['nosuchfield']
+            elif k == 'getitem_flt':
+                m[np.array([1.5, 2.0])]
+            elif k == 'getitem_listflt':
+                m[[1.5, 2.0]]
+            elif k == 'getitem_type':
+                m[1.5]
+            elif k == 'setitem_flt':
+                m[np.array([1.5])] = one
+            elif k == 'setitem_listflt':
+                m[[1.5]] = one
+            elif k == 'setitem_type':
+                m[1.5] = one
+            elif k == 'sop_bit_on_float':
+                r = m.__iand__(1)
+            elif k == 'sop_wide_const':
+                r = m.__ior__(1)
+            elif k == 'sop_list_nonwide':
+                r = m.__ior__([1])
+            elif k == 'sop_list_float':
+                r = m.__ior__([1.5])
+            elif k == 'sop_wide_add':
+                r = m.__iadd__([1])
+            elif k == 'sop_array':
+                r = m.__iadd__(np.zeros(3))
+            elif k == 'sop_int_fltconst':
+                r = m.__iand__(1.5)
+            elif k == 'deg_finer':
+                m.degrade(2 * m.nside_sparse)
+            elif k == 'deg_wmean_noweights':
+                m.degrade(m.nside_coverage, reduction='wmean')
+            elif k == 'deg_weights_notmap':
+                m.degrade(m.nside_coverage, reduction='wmean', weights=np.ones(npix))
+            elif k == 'deg_weights_int':
+                w = HealSparseMap.make_empty(m.nside_coverage, m.nside_sparse, np.int32)
+                m.degrade(m.nside_coverage, reduction='wmean', weights=w)
+            elif k == 'deg_wide_mean':
+                m.degrade(m.nside_coverage, reduction='mean')
+            elif k == 'chkpos_nonint':
+                m.check_bits_pos(np.array([1.0]), np.array([1.0]), [1])
+            else:
+                raise BadOp(k)
+            if k.startswith('sop_') and r is NotImplemented:
+                raise TypeError('NotImplemented')
+        except BadOp:
+            raise
+        except Exception as e:
+            return 'err ' + type(e).__name__
+        return 'ok'
+
     # ---- operations ----------------------------------------------------
     def op_reset(self, pos, kv):
         self.pool = {}
